@@ -97,4 +97,23 @@ theorem LinOpState.inv_run (v : LinOpVariant) (ops : List LinOpOp) :
       simp only [ho, if_false, Nat.add_zero] at h2
       simpa [List.filter, hb] using h2
 
+theorem LinOpState.jit_specOwn (n : Nat) : (specOwnSlots n).jit = specOwnSlots (n + 1) := by
+  cases n with
+  | zero => rfl
+  | succ n => simp [specOwnSlots, LinOpState.jit, LinOpState.needAdj, LinOpState.needGram]
+
+theorem LinOpState.runOwn_spec (ops : List LinOpOp) :
+    ∀ n, (specOwnSlots n).runOwn ops = specOwnSlots (n + (ops.filter (· == .jit)).length) := by
+  induction ops with
+  | nil => intro n; rfl
+  | cons o os ih =>
+    intro n
+    cases o
+    · have hb : (LinOpOp.jit == LinOpOp.jit) = true := by decide
+      simp only [LinOpState.runOwn, LinOpState.stepOwn, LinOpState.jit_specOwn, ih, List.filter_cons, hb, if_true, List.length_cons]
+      congr 1; omega
+    all_goals
+      simp only [LinOpState.runOwn, LinOpState.stepOwn, ih]
+      congr 1
+
 end Scico.Cache
